@@ -5,10 +5,6 @@ From C12 Require Import Gen Model ProofsBase ProofsVec ProofsSeq ProofsSB.
 Import ListNotations.
 
 (* with fallback allocations the capacity may be below INIT_CAPACITY: the weaker well-formedness *)
-Definition sb_wf_a (b : sb) : Prop :=
-  (sbdata b = [] /\ sbsize b = 0) \/
-  (sbsize b < length (sbdata b) /\
-   forall i, sbsize b <= i -> i < length (sbdata b) -> nth_error (sbdata b) i = Some 0%Z).
 
 Lemma sb_wf_wf_a : forall b, sb_wf b -> sb_wf_a b.
 Proof. intros b [H|(A & _ & C)]; [left; assumption|right; auto]. Qed.
@@ -90,20 +86,7 @@ Proof.
   exists k, r. destruct r; cbn [sbdata sbsize]; rewrite ?app_length, ?repeat_length; auto.
 Qed.
 
-Definition sb_failure (o : bop) (r : bret) : Prop :=
-  match o with
-  | BWrite _ => r = BOkN false 0
-  | BWriteByte _ _ | BResize _ | BPwc _ _ | BPrepare _ => r = BBool false
-  | _ => False
-  end.
 
-Definition sb_op_ok_a (o : bop) : Prop :=
-  match o with
-  | BPwc n xs => length xs <= n
-  | BCommitOver _ _ => False     (* with an empty span "span length + 1" may lie inside the buffer: not a violation *)
-  | BWriteParts _ => False       (* may be written in part: see sb_write_parts_a_ok *)
-  | _ => True
-  end.
 
 Lemma sb_write_a_ok : forall ok xs b, sb_wf_a b ->
   exists b' r, sb_write_a ok xs b = Ok (b', r) /\ sb_wf_a b' /\
